@@ -20,7 +20,7 @@ META = dict(
     level_note="Trusted base: CPython+NumPy as the reference semantics, the pickle transport, the argument generators (a function whose parameters cannot be generated is listed as unexercised, never counted as held). Compile errors are violations, runtime rounding differences up to TOL are not.",
     rule="case = (function, generated argument tuple); distinct = distinct (function, variant index); non-trivial = the interpreted call returned a finite non-None value or raised a documented domain error, and the compiled call actually ran in nopython mode",
     min_nontrivial=400,
-    required_hits=["jit_vs_interpreter_compared", "compiled_nopython"],
+    required_hits=["jit_vs_interpreter_compared", "compiled_nopython", "integer_typed_moment_cases"],
     max_inconclusive_frac=0.02,
 )
 
@@ -215,6 +215,8 @@ def run(ck):
         # ---- 2. generated inputs (parent, interpreted build; identical pickles for both children)
         cases, unsupported = jitdiff.build_cases(functions, ck.rng, n_inputs)
         exercised = [fn for fn in functions if fn["mod"] + "." + fn["name"] in cases]
+        typed_cases = jitdiff.build_typed_cases(exercised, ck.rng, with_float=thorough)
+        typed = [fn for fn in exercised if fn["mod"] + "." + fn["name"] in typed_cases]
         kinds = {fn["mod"] + "." + fn["name"]: fn["kind"] for fn in functions}
 
         # ---- 3. shard and run both builds
@@ -231,13 +233,18 @@ def run(ck):
             if grp:
                 base_shards.append(grp)
         rest_shards = _shards(rest, max(1, min(compile_workers, len(rest)))) if rest else []
-        shards = base_shards + rest_shards
+        # integer-typed Mellin moments are other numba signatures: nothing of the base layer can be reused, so
+        # they get shards of their own in phase 2 (harmonics / everything built on them)
+        typed_shards = [g for g in ([fn for fn in typed if fn["mod"].startswith("ekore.harmonics")], [fn for fn in typed if not fn["mod"].startswith("ekore.harmonics")]) if g]
+        shards = base_shards + rest_shards + typed_shards
+        first_typed = len(base_shards) + len(rest_shards)
+        shard_cases = [typed_cases if i >= first_typed else cases for i in range(len(shards))]
         cdir = os.path.join(tmp, "nbcache")
         os.makedirs(cdir)
         tmo = 3600 if thorough else 1500
         jit_items, py_items = [], []
         for i, sh in enumerate(shards):
-            job = {"functions": {fn["mod"] + "." + fn["name"]: dict(kind=fn["kind"], cases=cases[fn["mod"] + "." + fn["name"]]) for fn in sh}}
+            job = {"functions": {fn["mod"] + "." + fn["name"]: dict(kind=fn["kind"], cases=shard_cases[i][fn["mod"] + "." + fn["name"]]) for fn in sh}}
             inp = os.path.join(tmp, f"shard{i}.in.pkl")
             with open(inp, "wb") as fh:
                 pickle.dump(job, fh)
@@ -269,6 +276,9 @@ def run(ck):
             for fq in names:
                 rj, rp = oj.get(fq), op.get(fq)
                 short = fq.split(".")[-2] + "." + fq.split(".")[-1]
+                is_typed = i >= first_typed
+                if is_typed:
+                    short += "/integer-typed-N"
                 if rj is None or rp is None or rj["compile"] or rp["compile"]:
                     why = (rj or {}).get("compile") or (rp or {}).get("compile") or "missing"
                     ck.case((fq, "load"), nontrivial=False)
@@ -292,14 +302,22 @@ def run(ck):
                 # falls into the neighbouring area because log(x) differs by an ulp) is judged against it
                 mags = [m for m in (_magnitude(rr[0]) for rr in rp["results"]) if m is not None and m > 0]
                 fscale = float(np.median(mags)) if mags else 0.0
-                for v, ((summ, args), (resp, postp, sens), (resj, postj, _)) in enumerate(zip(cases[fq], rp["results"], rj["results"])):
+                for v, ((summ, args), (resp, postp, sens), (resj, postj, _)) in enumerate(zip(shard_cases[i][fq], rp["results"], rj["results"])):
                     s_ret, s_post = sens if sens else (None, None)
                     ck.hit("jit_vs_interpreter_compared")
+                    if is_typed:
+                        ck.hit("integer_typed_moment_cases")
                     sample = None
                     if v == 0 and len(ck.samples) < ck.max_samples and n_prog % 37 == 1:
                         sample = dict(function=fq, context=summ, args=_brief(args), interpreted=_brief(resp), compiled=_brief(resj))
-                    ck.case((fq, v), nontrivial=_nontrivial(resp) and resj[0] != "compile_error", sample=sample)
+                    ck.case((fq, "typed" if is_typed else "", v), nontrivial=_nontrivial(resp) and resj[0] != "compile_error", sample=sample)
                     wit = dict(function=fq, variant=v, context=summ, args=_brief(args), interpreted=_brief(resp), compiled=_brief(resj), seed=ck.seed, tier=ck.tier)
+                    if resj[0] == "compile_error" and is_typed:
+                        # integer-typed moments are outside the documented signature (N : complex); they are fed in
+                        # because the repository's own tests do so, but a signature that numba cannot lower for an
+                        # integer N is not a statement about the functions "on the evolution path": not judged
+                        ck.hit("integer_typed_signature_not_compilable")
+                        continue
                     if resj[0] == "compile_error":
                         n_dis_checked += 1
                         key = f"C48/{short}/compile-{resj[1]}"
@@ -311,10 +329,16 @@ def run(ck):
                         if resp[0] == resj[0] and resp[1] == resj[1]:
                             ck.hit("same_exception")
                             ck.ok()
-                        elif resj[:2] == ("exc", "ZeroDivisionError") and resp[0] == "ok" and _has_nonfinite(resp[1]):
+                        elif resj[0] == "exc" and resp[0] == "ok" and _has_nonfinite(resp[1]) and (resj[1] == "ZeroDivisionError" or is_typed):
                             # numba's documented error model: a scalar division by zero raises where
                             # NumPy scalars return inf/nan with a warning; both signal "outside the domain"
                             ck.hit("division_by_zero_signalled_by_both")
+                            ck.ok()
+                        elif resp[:2] == ("exc", "ZeroDivisionError") and (resj[0] == "exc" or _has_nonfinite(resj[1])):
+                            # a pole (interpreted build divides by zero): the compiled build raising anything or
+                            # returning inf/nan signals the same "outside the domain" (seen: AssertionError out of a
+                            # nested compiled call at the N=1 pole of A_singlet with an integer-typed N)
+                            ck.hit("pole_signalled_by_both")
                             ck.ok()
                         else:
                             n_dis_checked += 1
@@ -341,6 +365,14 @@ def run(ck):
                     n_dis_checked += 1
                     what = "return" if verdict != "same" else "argument-state"
                     key = f"C48/{short}/{what}-{verdict if verdict != 'same' else pv}"
+                    if is_typed and verdict == "differs" and summ.get("N_type") == "int" and v + 1 < len(rp["results"]):
+                        # narrow mechanism: python-int moment whose polynomial products exceed int64. The interpreter
+                        # computes them with unbounded ints, compiled code wraps - exactly like the *interpreted*
+                        # build does when the same moment is passed as np.int64 (next case, same arguments otherwise)
+                        nxt_summ, nxt = shard_cases[i][fq][v + 1][0], rp["results"][v + 1][0]
+                        if nxt_summ.get("N_type") == "np.int64" and nxt_summ.get("N") == summ.get("N") and nxt[0] == "ok":
+                            if compare(nxt[1], resj[1], None, fscale)[0] == "same":
+                                key += "/python-int-exceeds-int64"
                     if key not in reported:
                         reported.add(key)
                         ck.violation(key, f"{fq}: {detail if verdict != 'same' else pdetail}", wit)
